@@ -35,7 +35,7 @@ def run(ctx):
     u = ctx.ast("ports.cpp")
     ctx.rule("R17.1", "READER=WRITER: the metadata iterator, evaluated over every metadata block the port macros produce (and the hand-made blocks of the statement's corner cases), yields in order exactly the (key, value) pairs the block spells")
     ctx.rule("R17.3", "LENGTH: MetaContainer::length, evaluated on every such block for a container built on the block as written (path_search) and on the block after Port::meta() stripped the leading ':', reports the block's byte length including its terminator")
-    ctx.rule("R17.2", "LOOKUP: MetaContainer::find and operator[] range over the container itself and answer with the first entry whose title compares equal (strcmp == 0), NULL after the loop")
+    ctx.rule("R17.2", "LOOKUP: MetaContainer::find and operator[], evaluated on the same blocks for every key of the block and an absent key (the container's iteration being the evaluated iterator), answer with the first entry whose key is equal - find with that entry, operator[] with its value - and with nothing for an absent key")
     blocks = {}
     mu = ctx.ast("meta_matrix.cpp")
     for d in mu.decls:
@@ -91,60 +91,32 @@ def run(ctx):
                what="MetaContainer::length reports %s for %s, the block has %d bytes including its terminator" % (got, name, want))
     ctx.require_count("R17.3", 55)
 
-    for q, field in (("MetaContainer::find", None), ("MetaContainer::operator[]", "value")):
+    # ---- R17.2: find / operator[] evaluated on the same blocks, for every key of the block and an absent one
+    for q in ("MetaContainer::find", "MetaContainer::operator[]"):
         fn = u.function(q)
-        loops = [x for x in A.walk(u.body(fn)) if x.get("kind") == "CXXForRangeStmt"]
-        ok = False
-        det = {"range_for_loops": len(loops)}
-        if len(loops) == 1:
-            lp = loops[0]
-            over_this = any(y.get("kind") == "CXXThisExpr" for y in A.walk(A.kids(lp)[0])) or any(y.get("kind") == "CXXThisExpr" for k_ in A.kids(lp)[:3] for y in A.walk(k_))
-            ifs = [x for x in A.walk(lp) if x.get("kind") == "IfStmt"]
-            eq = False
-            ret_ok = False
-            for i_ in ifs:
-                c = A.strip_casts(A.kids(i_)[0])
-                calls = [k_ for k_ in A.calls_in(c) if A.callee_name(k_) == "strcmp"]
-                if len(calls) == 1 and any(y.get("kind") == "MemberExpr" and y.get("name") == "title" for y in A.walk(calls[0])):
-                    neg = c.get("kind") == "UnaryOperator" and c.get("opcode") == "!"
-                    eq0 = c.get("kind") == "BinaryOperator" and c.get("opcode") == "==" and 0 in (A.int_literal(A.kids(c)[0]), A.int_literal(A.kids(c)[1]))
-                    eq = neg or eq0
-                    rets = [r_ for r_ in A.walk(A.kids(i_)[1]) if r_.get("kind") == "ReturnStmt"]
-                    ret_ok = len(rets) == 1 and (field is None or any(y.get("kind") == "MemberExpr" and y.get("name") == field for y in A.walk(rets[0])))
-            # after the loop: return NULL
-            tail = [s_ for s_ in A.kids(u.body(fn)) if s_.get("kind") == "ReturnStmt"]
-            null_after = len(tail) == 1 and (A.int_literal(A.kids(tail[0])[0]) == 0 or any(y.get("kind") in ("GNUNullExpr", "CXXNullPtrLiteralExpr") for y in A.walk(tail[0])))
-            det.update({"ranges_over_this": over_this, "exact_key_comparison": eq, "returns_the_entry": ret_ok, "null_when_absent": null_after})
-            ok = over_this and eq and ret_ok and null_after
-        if not loops and field is not None:
-            # forwarding form: `return find(key).<field>` (directly or through a local holding find's result); find's own
-            # loop is obliged above, and an absent key must still read as NULL: MetaIterator(NULL).<field> evaluated
-            fcalls = [c for c in A.calls_in(u.body(fn)) if A.callee_name(c) == "find" and "MetaIterator" in (A.qtype(c) or "")]
-            ps = u.params(fn)
-            rets = [r_ for r_ in A.walk(u.body(fn)) if r_.get("kind") == "ReturnStmt"]
-            holders = set()
-            for v in A.walk(u.body(fn)):
-                if v.get("kind") == "VarDecl" and A.kids(v) and any(c in list(A.walk(v)) for c in fcalls):
-                    holders.add(v.get("id"))
-            fwd_key = len(fcalls) == 1 and len(A.call_args(fcalls[0])) >= 1 and A.ref_id(A.call_args(fcalls[0])[-1]) == ps[0]["id"]
-
-            def _from_find(r_):
-                e = A.strip_casts(A.kids(r_)[0]) if A.kids(r_) else None
-                if e is None or e.get("kind") != "MemberExpr" or e.get("name") != field:
-                    return False
-                b = A.strip_casts(A.kids(e)[0])
-                while b.get("kind") in ("MaterializeTemporaryExpr", "CXXBindTemporaryExpr", "ExprWithCleanups", "ParenExpr", "ImplicitCastExpr"):
-                    b = A.strip_casts(A.kids(b)[0])
-                return (b in fcalls) or (A.ref_id(b) in holders)
-            ret_ok = len(rets) == 1 and _from_find(rets[0])
-            branches = [x for x in A.walk(u.body(fn)) if x.get("kind") in ("IfStmt", "ConditionalOperator", "SwitchStmt", "WhileStmt", "ForStmt", "DoStmt")]
-            absent = None
-            try:
-                absent = MI._run_advance(u, u.function("metaiterator_advance"), MI._Mem(""), 0, 0)
-            except FD.Unknown as e:
-                absent = str(e)
-            det.update({"forwards_to_find_with_the_key": fwd_key, "returns_the_entry": ret_ok, "unconditional": not branches,
-                        "iterator_built_on_NULL": list(absent) if isinstance(absent, tuple) else absent})
-            ok = fwd_key and ret_ok and not branches and absent == (0, 0)
-        ctx.ob("R17.2", q, ok, site=A.where(fn), detail=det,
-               what="%s does not answer with the first entry whose key compares equal: %s" % (q, det))
+        bad2 = []
+        n2 = 0
+        for name, block, expect in cases:
+            keys = []
+            for kx, _ in expect:
+                if kx not in keys:
+                    keys.append(kx)
+            for key in keys + ["zz absent"]:
+                first = next((i for i, (kx, _) in enumerate(expect) if kx == key), None)
+                try:
+                    got = MI.lookup(u, block, q, key)
+                except FD.Unknown as e:
+                    if "outside the metadata block" in str(e):
+                        got = "reads outside the block"
+                    else:
+                        raise AnalysisBroken("R17.2: %s not evaluable on %s with key %r: %s" % (q, name, key, e))
+                n2 += 1
+                if q.endswith("find"):
+                    want = ("entry", first) if first is not None else ("none",)
+                else:
+                    want = expect[first][1] if first is not None else None
+                if got != want:
+                    bad2.append({"block": name, "key": key, "answer": list(got) if isinstance(got, tuple) else got, "expected": list(want) if isinstance(want, tuple) else want})
+        ctx.ob("R17.2", q, not bad2, site=A.where(fn), detail={"lookups": n2, "mismatches": bad2[:5]},
+               what="%s does not answer with the first entry whose key compares equal: %s" % (q, bad2[:2]))
+        ctx.require(n2 >= 100, "R17.2: only %d lookups evaluated" % n2)
